@@ -73,8 +73,9 @@ def make_trajectory(matrix, species, coords, time_step=1e-15, metadata=None, pre
 
     presentation='auto': the way the same data is handed over varies deterministically with the data
     (CRC of the coordinates): memory layout of the coordinate array (C order, Fortran order, an
-    axis-permuted view) and, for a fifth of the position-mode inputs, the object is left in displacement
-    representation (as after any displacement-based query).  presentation='plain': C order, as given.
+    axis-permuted view); for a fifth of the position-mode inputs the object is left in displacement
+    representation (as after any displacement-based query); for a quarter the metadata is not passed to the
+    constructor but assigned item by item afterwards.  presentation='plain': C order, as given.
     """
     import zlib
 
@@ -89,14 +90,21 @@ def make_trajectory(matrix, species, coords, time_step=1e-15, metadata=None, pre
     elif lay == 2:
         c = np.ascontiguousarray(c.transpose(2, 0, 1)).transpose(1, 2, 0)
     PRESENTATION[f'trajectory_coords_layout:{["C", "F", "permuted_view", "C"][lay]}'] += 1
+    meta = dict(metadata) if metadata is not None else {'temperature': 300.0}
+    by_assignment = presentation == 'auto' and (crc >> 11) % 4 == 0
     traj = Trajectory(
         species=list(species),
         coords=c,
         lattice=Lattice(np.array(matrix, dtype=float)),
         time_step=time_step,
-        metadata=dict(metadata) if metadata is not None else {'temperature': 300.0},
+        metadata=None if by_assignment else meta,
         **kw,
     )
+    if by_assignment:
+        # built without metadata; the entries are assigned one by one afterwards (traj.metadata['temperature'] = T)
+        for k_, v_ in meta.items():
+            traj.metadata[k_] = v_
+        PRESENTATION['trajectory_metadata_assigned_after_construction'] += 1
     if presentation == 'auto' and not kw.get('coords_are_displacement') and (crc >> 7) % 5 == 0 and len(c) >= 1:
         traj.to_displacements()
         PRESENTATION['trajectory_left_in_displacement_representation'] += 1
